@@ -185,3 +185,19 @@ def run(repo, rep, tier):  # noqa: F811 -- round-7 remedies / borrowings
 _ADD_R7N = ' Borrowed: R17.15.'
 EXPLANATION += _ADD_R7N
 LEVEL_TEXT += _ADD_R7N
+
+
+_run_before_r7rt = run
+
+
+def run(repo, rep, tier):  # noqa: F811 -- round 7: get_real_type leaves the trusted base
+    _run_before_r7rt(repo, rep, tier)
+    if getattr(rep, "borrowed", False):
+        return
+    from ..core import typepreds as _tprt
+    _tprt.real_type_cases(repo, rep, "R01.7")
+
+
+_ADD_R7RT = ' Borrowed: R01.7 (get_real_type substitutes the parameters of the defining class).'
+EXPLANATION += _ADD_R7RT
+LEVEL_TEXT += _ADD_R7RT
